@@ -30,6 +30,16 @@ CHECKS = {
             "that was sent. Search, not proof: larger streams are sampled.",
             "Trusts the recording layers of the harness and Python's struct module as the length reference.",
             "5/C05"),
+    "C09": ("exploration",
+            "Hypothesis-generated stanzas per documented shape (entity catalogue) with a stanza->entity->stanza round-trip "
+            "oracle, and generated constructor arguments pushed through the real codec",
+            "One catalogue record per entity class reachable from a layer (110 records; a meta-check fails the run when a class "
+            "has neither record nor reasoned exclusion). Receive path: generated stanzas of the documented shape must be "
+            "reproduced (numbers by value, children as multisets). Send path: the produced tree must be encodable and survive "
+            "encode->decode under the strict comparator.",
+            "Stanza shapes are taken from docstrings, fixtures and the parsers; realistic value kinds; binary integers in key "
+            "results compared by value.",
+            "5/C09"),
     "C10": ("exploration",
             "Hypothesis-generated attribute objects and peer payloads; round-trip, metamorphic re-serialisation and a pinned "
             "attribute->protobuf field table as independent oracle",
